@@ -93,7 +93,7 @@ class EReject(Engine):
                    'dtype x length x value classification of fresh constructions is a pure function and is met only as workload',
                    'negative offsets / lengths are outside the statement and are not generated']
     expected_probes = ('window_inside', 'window_outside_offset', 'window_outside_length', 'window_at_exact_end', 'write_rejected',
-                       'write_accepted', 'write_at_limit', 'write_just_outside_limit', 'array_write_rejected', 'illegal_length')
+                       'write_accepted', 'write_at_limit', 'write_just_outside_limit', 'array_write_rejected', 'illegal_length', 'write_under_lsb0')
     exhaustive = True
 
     def plan(self, tier, base_seed):
@@ -120,7 +120,8 @@ class EReject(Engine):
                     'data': bytes(g.int(0, 255) for _ in range(min(desc['size'], 8))).hex()}
         return {'mode': 'write', 'avoid': bool(desc.get('avoid')),
                 'ba': g.bits(g.pick([8, 12, 16, 24, 5, 32, 64, 70])), 'bs': g.bits(g.pick([8, 16, 24, 40, 13])), 'bspos': g.int(0, 8),
-                'adtype': g.pick(['uint', 'int']) + str(g.pick([1, 3, 8, 12, 16, 33, 64, 70])), 'aitems': g.int(0, 4), 'bystander': g.bits(g.int(1, 16)), 'mxfp_overflow': g.pick(['saturate', 'saturate', 'overflow'])}
+                'adtype': g.pick(['uint', 'int']) + str(g.pick([1, 3, 8, 12, 16, 33, 64, 70])), 'aitems': g.int(0, 4), 'bystander': g.bits(g.int(1, 16)), 'mxfp_overflow': g.pick(['saturate', 'saturate', 'overflow']),
+                'lsb0': g.chance(0.2)}
 
     # -------------------------------------------------------------------------------------------------
     def start(self, cfg):
@@ -159,6 +160,10 @@ class EReject(Engine):
             self.by = B.Bits(bin=cfg.get('bystander', '1'))
             if cfg.get('mxfp_overflow') == 'overflow':
                 B.options.mxfp_overflow = 'overflow'
+            if cfg.get('lsb0'):
+                # knob: what is rejected, and that a rejected write changes nothing, does not depend on the bit numbering
+                B.options.lsb0 = True
+                self.probe('write_under_lsb0')
             self.accepted = self.rejected = 0
         return {'mode': cfg.get('mode')}
 
@@ -489,6 +494,8 @@ class EReject(Engine):
                 new_obj, want_len = (r if st == 'ok' else None), nbits
         elif how == 'typed':
             name = ev.get('name') if ev.get('name') in TYPED else 'float'
+            if self.cfg.get('lsb0') and name in ('ue', 'se', 'uie', 'sie'):
+                return {'skip': 'exp-Golomb codes are not available in lsb0 mode'}, []
             allowed, pool = TYPED[name]
             ln = ev.get('length')
             ln = ln if (ln is None or (isinstance(ln, int) and not isinstance(ln, bool) and -64 <= ln <= 256)) else None
